@@ -26,7 +26,7 @@ package gabikeys
 //@   property C18
 //@   safety
 //@   ensures refused: err != nil ==> result0 == nil
-//@   ensures complete: err == nil ==> result0 != nil && result0.N != nil && result0.Z != nil && result0.S != nil && len(result0.R) >= 1 && result0.Params != nil
+//@   ensures complete: err == nil ==> result0 != nil && result0.N != nil && result0.Z != nil && result0.S != nil && result0.R != nil && result0.Params != nil
 //@   ensures length: err == nil ==> in(DefaultSystemParameters, bitlen(val(result0.N))) && result0.Params == DefaultSystemParameters[bitlen(val(result0.N))]
 //@   mustfail canary: err != nil
 
@@ -38,7 +38,7 @@ package gabikeys
 //@   property C18
 //@   safety
 //@   ensures refused: err != nil ==> result0 == nil
-//@   ensures complete: err == nil ==> result0 != nil && result0.N != nil && result0.Z != nil && result0.S != nil && len(result0.R) >= 1 && result0.Params != nil
+//@   ensures complete: err == nil ==> result0 != nil && result0.N != nil && result0.Z != nil && result0.S != nil && result0.R != nil && result0.Params != nil
 //@   mustfail canary: err != nil
 
 //@ func NewPrivateKeyFromXML
